@@ -47,6 +47,9 @@ structure Ops (α : Type) where
   sqrt : α → α             -- `np.sqrt` (applied to non-negative reals only)
   absSq : α → ℚ
   ofRat : ℚ → α
+  reP : α → α             -- `.real` as an element of the dtype
+  imP : α → α             -- `.imag`
+  I : α                   -- imaginary unit (0 for the real dtype, never used there)
   cplx : Bool
 
 def isqrtAux (n : Nat) : Nat → Nat → Nat
@@ -62,7 +65,7 @@ def sqrtRat (q : ℚ) : ℚ :=
 
 def opsQ : Ops ℚ :=
   { parse := asRat, toJ := ratJ, lt := fun a b => decide (a < b), sqrt := sqrtRat, absSq := fun a => a * a,
-    ofRat := id, cplx := false }
+    ofRat := id, reP := id, imP := fun _ => 0, I := 0, cplx := false }
 
 def parseQI (v : Json) : R QI := do
   let a ← asArr v
@@ -73,7 +76,7 @@ def opsQI : Ops QI :=
   { parse := parseQI, toJ := fun z => Json.arr #[ratJ z.re, ratJ z.im],
     lt := fun a b => decide (a.re < b.re) || (decide (a.re = b.re) && decide (a.im < b.im)),
     sqrt := fun z => ⟨sqrtRat z.re, 0⟩, absSq := fun z => z.re * z.re + z.im * z.im,
-    ofRat := fun q => ⟨q, 0⟩, cplx := true }
+    ofRat := fun q => ⟨q, 0⟩, reP := fun z => ⟨z.re, 0⟩, imP := fun z => ⟨z.im, 0⟩, I := ⟨0, 1⟩, cplx := true }
 
 /-! ### generic helpers -/
 section generic
@@ -248,10 +251,52 @@ def direct (o : Ops α) (j : Json) : R Json := do
     let A ← getMat o j "A" n n
     let splu : Trans → Mat n k α → Mat n k α := fun t B => ((gaussInv (opT t A)).getD 0) * B
     if (gaussInv A).isNone then throw "contract: A is singular"
-    match solveSparseLU splu ts B with
+    let iscA ← getBool j "iscomplexA"
+    let rhsC ← getBool j "rhs_complex"
+    if !iscA && !((List.finRange n).all fun i => (List.finRange n).all fun jj => decide (o.imP (A i jj) = o.imP 0)) then
+      throw "contract: iscomplexA = false but A has an imaginary part"
+    match solveSparseLU splu iscA rhsC (fun i jj => o.reP (B i jj)) (fun i jj => o.imP (B i jj)) o.I ts B with
     | .ok x => return objJ [("x", matJ o x)]
     | .error e => throw e
   | _ => throw s!"unknown solver {solver}"
+
+/-- one `SolverDenseCholesky` object re-used: `updates` is the sequence of `update(A_i)` calls (all of size `n`) with the
+    scipy results observed on the real object (`U`, or `null` = LinAlgError together with the back-up's `l d p`);
+    then one `solve(B, trans)` on the final state -/
+def cholHist (o : Ops α) (j : Json) : R Json := do
+  let n ← getNat j "n"
+  let k ← getNat j "k"
+  let B ← getMat o j "B" n k
+  let t ← transOf (← getStr j "trans")
+  let ups ← getArr j "updates"
+  let mut st : Option (CholState α n) := none
+  for u in ups do
+    let A ← getMat o u "A" n n
+    match (← getField u "U") with
+    | Json.null =>
+      let l ← getMat o u "l" n n
+      let d ← getMat o u "d" n n
+      let p ← getPerm u "p" n
+      let s' := updateChol o.cplx (fun _ => none) (fun _ _ => (l, d, p)) (fun M => (gaussInv M).getD 0) st A
+      match s'.backup with
+      | some b =>
+        if !checkTri b.lp true true then throw "contract: l[p,:] is not unit lower triangular"
+        if !(isDiagonal d) && (gaussInv d).isNone then throw "contract: d is singular"
+      | none => throw "internal: no back-up state"
+      st := some s'
+    | _ =>
+      let U ← getMat o u "U" n n
+      if !checkTri U false false then throw "contract: U is not invertible upper triangular"
+      st := some (updateChol o.cplx (fun _ => some U) (fun _ _ => (0, 0, id)) (fun M => M) st A)
+  match st with
+  | none => throw "AttributeError"
+  | some cs =>
+    match solveChol (triImpl : TriSolve α n k) cs t B with
+    | .ok x => return objJ [("x", matJ o x), ("success", Json.bool cs.success),
+        ("hermitian", match cs.backup with
+          | some b => Json.bool b.hermitian
+          | none => Json.null)]
+    | .error e => throw e
 
 /-! ### CG -/
 def normImpl (o : Ops α) {n : ℕ} (v : Fin n → α) : ℚ :=
@@ -302,10 +347,14 @@ def cg (o : Ops α) (j : Json) : R Json := do
   match cgSolve c b x0 with
   | .error e => throw e
   | .ok res =>
-    let relres : List ℚ := (List.finRange k).map fun jj =>
-      normImpl o (fun i => res.r i jj) / normImpl o (fun i => b i jj)
+    let relres : List ℚ := (List.finRange k).map fun jj => normImpl o (fun i => res.r i jj) / bnorm c b jj
+    -- per iterate: is some (but not every) column of the exact residual `b − A x` exactly zero?
+    let rzero : List Bool := res.trace.map fun x =>
+      let r : Array (Array α) := toArr (b - Aop * x)
+      let zc := (List.range k).map fun jj => (List.range n).all fun i => decide ((r[i]!)[jj]! = 0)
+      zc.any id && !zc.all id
     return objJ [("x", matJ o res.x), ("converged", Json.bool res.converged), ("iters", natJ res.iters),
-      ("trace", listJ (matJ o) res.trace), ("relres", listJ ratJ relres)]
+      ("trace", listJ (matJ o) res.trace), ("relres", listJ ratJ relres), ("rzero", listJ Json.bool rzero)]
 
 /-- `orth(u, normalize, zero_rtol)` on a 2-D array -/
 def orthH (o : Ops α) (j : Json) : R Json := do
@@ -373,5 +422,5 @@ def byDtype (fq : Ops ℚ → Json → R Json) (fc : Ops QI → Json → R Json)
 
 def handlers : List (String × (Json → R Json)) :=
   [("c05.direct", byDtype direct direct), ("c05.cg", byDtype cg cg), ("c05.orth", byDtype orthH orthH),
-   ("c05.auto", byDtype auto auto), ("c05.interp", interp)]
+   ("c05.auto", byDtype auto auto), ("c05.interp", interp), ("c05.chol_hist", byDtype cholHist cholHist)]
 end PymotoVerif.Drv.C05
